@@ -474,3 +474,89 @@ func genRouting(r *rng, nRandom int) CaseSet {
 	cs.Cases = append(cs.Cases, rs.Cases...)
 	return cs
 }
+
+// ---- C13: near-identical redefinitions ----
+
+// genRedefinitions: the same local type is redefined several times with definitions that differ
+// from the previous one in exactly one respect (byte order only, one field's size, one field's
+// base type, the global message with the same field triplets, developer fields added/removed,
+// field order, nothing at all), with data records between — so that any caching or reuse of
+// an older definition shows.
+func genRedefinitions(r *rng, n int) CaseSet {
+	cs := CaseSet{Name: "near-identical-redefinitions"}
+	k := fullKnobs()
+	k.badDefs = 0
+	k.unknownMsgs = false
+	k.devFields = false
+	k.onlyMsgs = []int{20, 21, 19, 23, 34, 18}
+	for i := 0; i < n; i++ {
+		var b recs
+		b.Write(fileIdRecs(4, byte(r.intn(2))))
+		local := byte(1 + r.intn(15))
+		if r.chance(40) {
+			local = byte(1 + r.intn(3))
+		}
+		d := randomDef(r, k, local)
+		for len(d.fields) == 0 {
+			d = randomDef(r, k, local)
+		}
+		other := byte(1 + (int(local) % 15))
+		rounds := 2 + r.intn(5)
+		for j := 0; j < rounds; j++ {
+			b.def(d)
+			for q := 0; q < 1+r.intn(3); q++ {
+				p := randomPayload(r, d, k)
+				if local < 4 && r.chance(30) {
+					b.cdata(local, byte(r.intn(32)), p)
+				} else {
+					b.data(local, p)
+				}
+			}
+			nd := d
+			nd.fields = append([]fdef(nil), d.fields...)
+			switch r.intn(9) {
+			case 0, 1, 2:
+				nd.arch ^= 1
+			case 3:
+				f := &nd.fields[r.intn(len(nd.fields))]
+				if bs := btSize[f.btype]; bs > 0 && int(f.size)+bs < 255 && f.btype != 0x07 {
+					f.size += byte(bs)
+				} else {
+					f.size++
+				}
+			case 4:
+				f := &nd.fields[r.intn(len(nd.fields))]
+				for _, bt := range allBase {
+					if bt != f.btype && btSize[bt] == btSize[f.btype] && r.chance(50) {
+						f.btype = bt
+						break
+					}
+				}
+			case 5:
+				nd.global = uint16(k.onlyMsgs[r.intn(len(k.onlyMsgs))])
+			case 6:
+				nd.devBit = !nd.devBit
+				nd.dev = nil
+				if nd.devBit && r.chance(50) {
+					nd.dev = []ddesc{{0, byte(1 + r.intn(3)), 0}}
+				}
+			case 7:
+				if len(nd.fields) > 1 {
+					a, c := r.intn(len(nd.fields)), r.intn(len(nd.fields))
+					nd.fields[a], nd.fields[c] = nd.fields[c], nd.fields[a]
+				}
+			case 8: // identical
+			}
+			if r.chance(25) { // another local type in between must not be affected, nor affect this one
+				od := randomDef(r, k, other)
+				b.def(od)
+				b.data(other, randomPayload(r, od, k))
+			}
+			d = nd
+		}
+		b.def(d)
+		b.data(local, randomPayload(r, d, k))
+		cs.Cases = append(cs.Cases, decCase("decode", "000", "-", "-", frame(b.Bytes(), defaultFrame())))
+	}
+	return cs
+}
